@@ -378,10 +378,33 @@ def cli_confirm(replay):
     Returns (reproduced: bool|None, details)."""
     progs = replay.get('JSONNET') or []
     expects = replay.get('EXPECT') or []
-    if not progs:
+    srcs = replay.get('SOURCEHEX') or []
+    locs = replay.get('EXPECTLOC') or []
+    if not progs and not srcs:
         return None, {'note': 'harness gives no language-level replay for this kernel'}
     details = []
     reproduced = False
+    # whole source files (byte-exact) whose reported error location is the observable
+    for i, hx in enumerate(srcs):
+        want = locs[i] if i < len(locs) else ''
+        import tempfile
+        with tempfile.NamedTemporaryFile(suffix='.jsonnet', delete=False) as tf:
+            tf.write(bytes.fromhex(hx))
+            path = tf.name
+        for profile in ('debug', 'release'):
+            b = jrsonnet_bin(profile)
+            try:
+                p = subprocess.run([b, path], capture_output=True, text=True, timeout=60, errors='replace',
+                                   env=dict(ENV, RUST_BACKTRACE='0'))
+                got = p.stderr.strip()[:400]
+                crashed = 'panicked at' in p.stderr
+            except subprocess.TimeoutExpired:
+                got, crashed = 'timeout', True
+            ok = (want in got) and not crashed
+            details.append({'source_hex': hx, 'expect_location': want, 'profile': profile, 'stderr': got, 'agrees_with_oracle': ok})
+            if not ok:
+                reproduced = True
+        os.unlink(path)
     for i, prog in enumerate(progs):
         exp = expects[i] if i < len(expects) else 'nocrash'
         for profile in ('debug', 'release'):
@@ -636,7 +659,9 @@ def run_property(prop, tier, spec, py_jobs=None):
         'violations': len(violations),
     }
     os.makedirs(os.path.join(VERIF, 'evidence'), exist_ok=True)
-    with open(os.path.join(VERIF, 'evidence', f'{prop}.json'), 'w') as f:
+    # debugging runs (--only, seeded-change runs) must not replace the evidence of the registered command
+    ev_name = f'{prop}.partial.json' if os.environ.get('VERIF_PARTIAL') else f'{prop}.json'
+    with open(os.path.join(VERIF, 'evidence', ev_name), 'w') as f:
         json.dump(ev, f, indent=1)
     for key, what in known_hit:
         print(f'KNOWN-FINDING: property={prop} {key} {what}')
